@@ -638,6 +638,11 @@ fn build_content(content: &str) {
         let e = tnode(reenter);
         d.kids.borrow_mut().push(e);
         keep.push(d);
+        // one object with TWO handles in the thread-local: its destructor releases them one after the
+        // other (a non-last release followed by the last one, both possibly after the buffer is gone)
+        let s = tnode(false);
+        keep.push(s.clone());
+        keep.push(s);
     }
     if matches!(content, "buffered" | "mixed") {
         for _ in 0..3 {
